@@ -831,7 +831,7 @@ Proof.
   pose proof ns_pos as NP.
   assert (A1 : hb = 0 \/ hb = c_def_hb cf \/ 1000 * ns_per_ms <= hb <= ms (c_max_hb cf) * ns_per_ms).
   { unfold set_heartbeat in E1. rewrite Z.geb_leb in E1.
-    destruct (i_hb d =? -1); [inversion E1; auto|]. destruct (i_hb d =? 0); [inversion E1; subst; tauto|].
+    destruct (i_hb d =? -1); [inversion E1; auto|]. destruct (i_hb d =? 0); [inversion E1; subst; exact H1|].
     destruct (Z.leb_spec 1000 (i_hb d)); [|discriminate]. destruct (Z.leb_spec (i_hb d) (ms (c_max_hb cf))); [|discriminate].
     inversion E1; subst. right. right. nia. }
   assert (A4 : 0 <= sr <= 99).
@@ -840,7 +840,7 @@ Proof.
     inversion E3; subst. lia. }
   assert (A5 : mt = c_def_msgto cf \/ 1000 * ns_per_ms <= mt <= ms (c_max_msgto cf) * ns_per_ms).
   { unfold set_msg_timeout in E4. rewrite Z.geb_leb in E4.
-    destruct (i_msgto d =? 0); [inversion E4; subst; tauto|].
+    destruct (i_msgto d =? 0); [inversion E4; subst; exact H5|].
     destruct (Z.leb_spec 1000 (i_msgto d)); [|discriminate]. destruct (Z.leb_spec (i_msgto d) (ms (c_max_msgto cf))); [|discriminate].
     inversion E4; subst. right. nia. }
   assert (A23 : (obs = 1 \/ obs = nsqd_defaultBufferSize \/ 64 <= obs <= c_max_obsize cf) /\
@@ -854,7 +854,7 @@ Proof.
       (obs = 1 \/ obs = nsqd_defaultBufferSize \/ 64 <= obs <= c_max_obsize cf) /\
       (obt = 0 \/ obt = c_def_obt cf \/ ms (c_min_obt cf) * ns_per_ms <= obt <= ms (c_max_obt cf) * ns_per_ms)).
     { intros to1 Hto F. destruct (i_obsize d =? -1); [inversion F; subst; auto|].
-      destruct (i_obsize d =? 0); [inversion F; subst; tauto|].
+      destruct (i_obsize d =? 0); [inversion F; subst; split; [exact H2 | exact Hto]|].
       destruct (Z.leb_spec 64 (i_obsize d)); [|discriminate]. destruct (Z.leb_spec (i_obsize d) (c_max_obsize cf)); [|discriminate].
       inversion F; subst. split; [right; right; lia | exact Hto]. }
     destruct (i_obt d =? -1); [apply (T 0); auto|].
@@ -862,7 +862,7 @@ Proof.
     destruct (Z.leb_spec (ms (c_min_obt cf)) (i_obt d)); [|discriminate].
     destruct (Z.leb_spec (i_obt d) (ms (c_max_obt cf))); [|discriminate]. cbn [andb] in E2.
     apply (T (i_obt d * ns_per_ms)); [right; right; nia | exact E2]. }
-  tauto.
+  destruct A23 as [A2 A3]. exact (conj A1 (conj A2 (conj A3 (conj A4 A5)))).
 Qed.
 
 Lemma valid_id_len : forall p, valid_id p = true -> len p = nsqd_MsgIDLength.
